@@ -111,7 +111,16 @@ def const_programs(live):
             body.append('print!(Y%d, "\\n");' % k)
             body.append('print!(v%d, "\\n");' % k)
             want = mc.shown(c["r"], rt)
-            exp.append([want, want, want])
+            if c["mode"] == "bin":
+                # (4), (5) one operand known at compile time next to one known at run time only: where a compiler
+                # specialises an operation on its constant operand (seeded change C10j: division by a constant)
+                body.append("var m%d: %s = a%d %s QB%d;" % (k, rt, k, c["op"], k))
+                body.append("var n%d: %s = %s %s b%d;" % (k, rt, la, c["op"], k))
+                body.append('print!(m%d, "\\n");' % k)
+                body.append('print!(n%d, "\\n");' % k)
+                exp.append([want, want, want, want, want])
+            else:
+                exp.append([want, want, want])
             ks.append(cell_key(c))
         src = "\n".join(consts) + "\nfn main() -> u8\n{\n" + "\n".join(body) + "\nreturn: 0u8\n}\n"
         programs.append({"src": src})
@@ -381,7 +390,7 @@ def run(rep, tier, seed, selftest):
     live = [c for c in allcells if not c["ub"]]
     programs, expected, keys = const_programs(live)
     results = run_sources(programs, "C10-const")
-    n1 = compare(rep, "const", programs, results, expected, keys, ["const", "const-chain", "runtime"])
+    n1 = compare(rep, "const", programs, results, expected, keys, ["const", "const-chain", "runtime", "runtime-op-constant", "literal-op-runtime"])
     log("[replay] constant expressions: %d cells (%d defined) in %d programs, %d comparisons (const / const chain / run time)" %
         (len(allcells), len(live), len(programs), n1))
     r = common.tlc("MC_Layout", "MC_Layout_%s.cfg" % tier, workers=4, timeout=1200, tag="C10-layout-%d" % os.getpid())
